@@ -1,5 +1,7 @@
 import CJ.Lemmas.RW
 import CJ.Gen.LockPrograms
+import CJ.Lemmas.ReloadPath
+import CJ.Gen.ReloadPath
 /-!
 # C13 — the registrar keeps answering while its configuration is reloaded
 
@@ -295,5 +297,145 @@ example : step ((exec (init [[.rlock, .readSel, .runlock, .select], [.lock, .swa
 example : ∃ s, exec (init ([[.rlock, .readSel, .runlock, .select, .select], [.rlock, .readSel, .runlock, .select]] ++
     [[.lock, .swapSel, .unlock], [.lock, .swapSel, .unlock]])) [0, 2, 0, 0, 2, 2, 2, 1, 0, 3] = some s ∧ s.ver = 1 :=
   ⟨_, rfl, rfl⟩
+
+
+/-! ### the whole reload path: every mutex, every entry point, the SIGHUP goroutine
+
+`Gen.ReloadPath` is regenerated on every run by `go/extract/reloadpath` (go/ast + go/types) from
+cmd/registration-server and every package of the repository it imports: per entry point of
+cmd/registration-server and pkg/regserver/* (exported functions and methods, the HTTP handlers and the DNS
+callback whose values are taken, the goroutines `main` starts - the SIGHUP goroutine among them), every path
+with the operations on *every* mutex it reaches (`ccMutex` of the API registrar, `selectorMutex`, `zmqMutex`, the
+metrics' `rwMutex`), callees inlined across packages and through interfaces. -/
+
+section ReloadPath
+open CJ.ReloadPath
+open CJ.Gen.ReloadPath (lockPaths mutexes sighupRounds sighupExits sighupFound sighupEndless sighupHandlesSIGHUP)
+
+/-- **No recursive read lock** (nor any other second acquisition): no path through any entry point of the reload
+path asks for a mutex - `RLock`, `Lock`, `TryRLock`, `TryLock` - that it already holds.  An accessor that takes
+`ccMutex.RLock` called from a function that holds `ccMutex.RLock` is what this excludes. -/
+theorem no_recursive_read_lock : ∀ p ∈ lockPaths, reacquired p.2 = [] := by decide
+
+/-- … which is what the per-lock theorems need: projected onto each mutex, every path is *flat* (no acquisition
+while holding, every section closed before the entry point returns or the reload goroutine's round ends) -/
+theorem reload_path_programs_flat :
+    ∀ k ∈ List.range mutexes.length, ∀ p ∈ lockPaths, flat (proj k p.2) = true := by decide
+
+/-- and every acquisition waits (no `Try*`: nobody gives up because a reload is in progress) -/
+theorem reload_path_programs_blocking :
+    ∀ k ∈ List.range mutexes.length, ∀ p ∈ lockPaths, blocking (proj k p.2) = true := by decide
+
+/-- across the mutexes: no two are ever requested in both orders (and none while it is itself held) -/
+theorem reload_path_lock_order_acyclic : orderAcyclic (lockPaths.flatMap fun p => nestings p.2) = true := by decide
+
+/-- mutex `m` is in the table, a round of the reload goroutine takes its write lock and a path of another entry
+point its read lock -/
+def writtenByReloadReadByRequests (m : String) : Bool :=
+  match mutexes.findIdx? (fun x => x.1 == m) with
+  | some k => sighupRounds.any (fun r => r.contains (.lk k .lock)) &&
+      lockPaths.any (fun p => p.1 != Gen.ReloadPath.sighupRoot && p.2.contains (k, .rlock))
+  | none => false
+
+/-- the walker's account: every lock-operation call site on one of these mutexes, anywhere in scope, lies on a
+path from an entry point; no function value is called while a lock is held (such a call could not be followed);
+the table has the entry points the property is about, and the reload goroutine reaches both `ccMutex` (write
+side) and `selectorMutex` (write side) -/
+theorem reload_path_extractor_covers :
+    (∀ c ∈ Gen.ReloadPath.coverage, c.2.1 = c.2.2 ∧ 0 < c.2.1) ∧ Gen.ReloadPath.unreached = [] ∧
+    Gen.ReloadPath.opaqueCallsUnderLock = [] ∧
+    (∀ r ∈ ["apiregserver.APIRegServer.registerBidirectional", "apiregserver.APIRegServer.register",
+        "dnsregserver.DNSRegServer.processRequest", "apiregserver.APIRegServer.NewClientConf",
+        "regprocessor.RegProcessor.ReloadSubnets", "regprocessor.RegProcessor.RegisterBidirectional"],
+      lockPaths.any (fun p => p.1 == r && !p.2.isEmpty) = true) ∧
+    (∀ m ∈ ["apiregserver.APIRegServer.ccMutex", "regprocessor.RegProcessor.selectorMutex"],
+      writtenByReloadReadByRequests m = true) := by decide
+
+/-- **C13 for each mutex of the reload path.** Any number of goroutines, each following any path through any entry
+point (API and DNS requests, `NewClientConf`, `ReloadSubnets`, rounds of the SIGHUP goroutine, the metrics
+logger), seen on any one mutex `k`: every reachable state is finished or can step, every run can be completed
+with nobody refused, no run is longer than the initial measure.  The hypothesis of `never_blocked` /
+`none_refused` - flat, waiting programs - is exactly what `reload_path_programs_flat` /
+`reload_path_programs_blocking` establish for the regenerated table. -/
+theorem reload_path_keeps_answering (k : Nat) (hk : k ∈ List.range mutexes.length) (progs : List (List Op))
+    (hp : ∀ q ∈ progs, ∃ p ∈ lockPaths, q = proj k p.2)
+    (sched : List Nat) (s : St) (h : exec (init progs) sched = some s) :
+    (allDone s = true ∨ ∃ i s', step s i = some s') ∧
+    (∃ rest s', exec s rest = some s' ∧ allDone s' = true ∧ anyRefused s' = false) ∧
+    sched.length + measure s ≤ measure (init progs) ∧ anyRefused s = false := by
+  have hflat : ∀ q ∈ progs, flat q = true := by
+    intro q hq; obtain ⟨p, hpm, rfl⟩ := hp q hq; exact reload_path_programs_flat k hk p hpm
+  have hblk : ∀ q ∈ progs, blocking q = true := by
+    intro q hq; obtain ⟨p, hpm, rfl⟩ := hp q hq; exact reload_path_programs_blocking k hk p hpm
+  obtain ⟨hprog, rest, s', hrest, hdone⟩ := never_blocked _ hflat sched s h
+  exact ⟨hprog, ⟨rest, s', hrest, hdone, none_refused _ hblk (sched ++ rest) s' (exec_append h hrest)⟩,
+    measure_exec h, none_refused _ hblk sched s h⟩
+
+/-- the shape a read-locking accessor called under the same read lock gives a request -/
+def recursiveReader : List Op := [.rlock, .rlock, .runlock, .runlock]
+
+example : flat recursiveReader = false ∧ reacquired (recursiveReader.map ((0 : Nat), ·)) = [0] := by decide
+
+/-- **Go's writer preference makes a recursive reader deadlock**: the request takes the read lock, the reload
+(`NewClientConf`: `Lock … Unlock`) announces itself, the request's second `RLock` is refused because a writer is
+pending, the writer waits for the first read lock - nothing can step, nothing has finished; and every later
+reader is stuck behind the pending writer as well. -/
+theorem recursive_reader_deadlocks :
+    ∃ sched s, exec (init [recursiveReader, [.lock, .unlock], [.rlock, .runlock]]) sched = some s ∧
+      allDone s = false ∧ ∀ i, step s i = none := by
+  refine ⟨[0, 1], _, rfl, by decide, ?_⟩
+  intro i
+  match i with
+  | 0 => decide
+  | 1 => decide
+  | 2 => decide
+  | n + 3 => rfl
+
+/-- **The reload loop never exits**: `main` starts a goroutine that receives from the channel it gave to
+`signal.Notify`; its loop has no condition, the reload is handled in its body for SIGHUP, and neither the body nor
+any function of the repository it calls contains a statement that leaves the loop or ends the goroutine or the
+process (`return`, `break`, `goto`, `os.Exit`, `log.Fatal*`, `panic`, `runtime.Goexit`): every failure path goes
+on to the next round. -/
+theorem reload_loop_never_exits :
+    sighupFound = true ∧ sighupEndless = true ∧ sighupHandlesSIGHUP = true ∧ sighupExits = [] := by decide
+
+/-- … so every reload signal is served, whatever came before it (a refused reload in particular) -/
+theorem every_reload_signal_served (leaves : Nat → Bool) (h : ∀ i, leaves i = false) (sigs : List Bool) :
+    served leaves 0 sigs = sigs.count true :=
+  served_all leaves h sigs 0
+
+/-- a path that leaves the loop (a `return` after a refused reload, say) drops every later signal -/
+theorem exit_after_refused_reload_drops_later_signals :
+    served (fun i => i == 0) 0 [true, true, true] = 1 := by decide
+
+/-- **Subnets before the generation that refers to them.** On every path through one round of the reload loop
+that replaces the phantom selector, the selector is written before any ClientConf generation is published (API
+registrar's `latestClientConf`, DNS registrar's `latestCCGen`) … -/
+theorem reload_round_subnets_first :
+    (∀ r ∈ sighupRounds, hasSelWrite r = true → genAfterSel r = true) ∧
+    sighupRounds.any (fun r => hasSelWrite r && r.contains (.wr apiGenField) && r.contains (.wr dnsGenField)) = true := by
+  decide
+
+/-- … hence a request that arrives at any point of such a round - after any prefix of its steps - finds a
+configuration in which the generation a registrar may substitute is one the installed subnet set has: provided
+the two files of the reload are consistent (the new ClientConf generation is in the new subnet file) and the new
+subnet file still has the generation(s) in force (generations are added before they are switched to). -/
+theorem reload_publishes_generation_after_subnets (r : List Eff) (hr : r ∈ sighupRounds) (hsel : hasSelWrite r = true)
+    (c : Cfg) (n : New) (hc : Consistent c) (hn : n.gen ∈ n.sel) (ha : c.apiGen ∈ n.sel) (hd : c.dnsGen ∈ n.sel)
+    (k : Nat) : Consistent (run n c (r.take k)) :=
+  prefixes_consistent n hn r false c (reload_round_subnets_first.1 r hr hsel) hc ha hd (fun h => by cases h) k
+
+/-- the order matters: publishing first leaves, between the two steps, a generation the installed set lacks -/
+theorem publishing_first_breaks_consistency :
+    ∃ (c : Cfg) (n : New) (k : Nat), Consistent c ∧ n.gen ∈ n.sel ∧ c.apiGen ∈ n.sel ∧ c.dnsGen ∈ n.sel ∧
+      ¬ Consistent (run n c ([Eff.wr apiGenField, .wr dnsGenField, .wr selectorField].take k)) :=
+  ⟨⟨[100], 100, 100⟩, ⟨[100, 101], 101⟩, 1, by decide, by decide, by decide, by decide, by decide⟩
+
+/-- What is *not* claimed: a round in which the subnet file could not be loaded (no selector write) still
+publishes the new ClientConf generation - the handler logs "aborting reload" and goes on. Such rounds are in the
+table; for them consistency needs the new generation to be in the *old* subnet set. -/
+example : sighupRounds.any (fun r => !hasSelWrite r && hasGenWrite r) = true := by decide
+
+end ReloadPath
 
 end CJ.Props.C13
